@@ -56,6 +56,14 @@ CLAIMS = {
         "text": "Proved in the Coq model: every fault class of the property text is rejected at every position: constructors (14 types x IN/OUT exact tables, transfers always MOVE, non-positive amounts with the STAKING exception, zero/negative spot where required, both fee kinds, received > sent, fee without spot); one bad cell in any field of any table row (unknown asset/exchange/holder, timestamp without zone, unknown type, non-numeric, empty mandatory), asset differs from sheet; the table state machine (nested table, blank row inside a table, TABLE END or data outside a table); a repeated table of any type already begun, with or without data rows in the earlier table, is rejected after any accepted prefix (C12_repeated_table_step, C12_repeated_table_rejected, resting on C12_code_remembers_tables which is read from parse_ods by the translator and does not compile against a parser that tests the transaction set for emptiness); a faulty row after ANY accepted prefix and before ANYTHING makes parse_sheet fail (also spelled out on rendered sheets); missing TABLE END; missing or empty IN table; unknown asset; header line faults at any line, section faults at any section, missing mandatory section/field; option conflicts (-m plus [accounting_methods], unsupported method, from > to, unknown -a, unknown method in config); any front-end rejection of any asset after any accepted ones => exit != 0 and no report, whatever later stages do.",
         "note": "Fault stream on real .ini/.ods files: every class at every row/field/table/section position of small valid inputs; the implementation must raise and the model must return Err; the five console scripts on a sample per class (rp2_us always) plus all option faults must give exit != 0, an error message, and no .ods in the output directory. Fault-free bases are checked to run to completion under all five scripts. Translator fragment 'parser' supplies the repeated-table guard, format precision, keywords and constructor parameter tables; if unrecognised, the accepted fragment is used and the stream is doubled. configparser/json/jsonschema/argparse rejections are library behaviour (counted separately). F11 (repeated table accepted after an empty table of its type) is repaired in /repo: its replay runs first on every run and C12_repeated_table_refuted keeps the witness for the old behaviour.",
         "technique": "Coq case lemmas per fault class with universal position quantification (prefix/suffix lemmas on the state machine) + exhaustive single-fault injection against the implementation (in-process and CLI)", "design_ref": "6 C12"},
+    "C13": {
+        "text": "Proved for all inputs on the Coq model of the report writer, whose layout tables (columns, header shapes, gaps, sheet-size formulas, repair flags) are regenerated from the source on every run: each transaction, yearly line, balance, holder total, fraction and Summary line of the window is written on exactly one row of its table, at table start + index in the time-sorted list; that row carries ComputedData's figures (running sums, sold %, amount, proceeds, cost, gain, LONG/SHORT) and the k/n labels of GainLossSet's numbering (whose functional specification is proved in C10); row ranges are disjoint; no write leaves a sheet while at most 21 holders have a balance (bound shown tight by a witness, finding F12); the Legend states the method(s) and the filters. That the .ods holds the modelled cells is not proved: it is checked cell by cell on every run (values, sheet names, order and sizes; generated multi-asset reports x 5 countries / 6 language packs), and an independent oracle reads the file against ComputedData and the input.",
+        "note": "The theorems concern the model. Styles, static label texts (checked only to be non-empty) and template sizes are inputs. Sold % and running sums are ComputedData's. Labels get an independent count only for monotone local dates (F9). Known finding F12 (more than 21 holders with a balance overflow the Tax sheet). F10 and F2 are repaired in /repo; their replays run first on every run.",
+        "technique": "Coq proof over an executable layout model with translated tables + cell-by-cell differential correspondence (fresh interpreter per report) + independent table-level oracle", "design_ref": "6 C13"},
+    "C19": {
+        "text": "Proved on the model for the source as repaired (row map emptied per asset, guarded year lookup; both read from the source as flags, so the property file does not compile on a tree without the repairs), under row ids distinct within an asset: after an asset's tables the transaction-to-row map is exact on the transactions shown and empty elsewhere, whatever earlier assets left; every linked cell of a gain/loss row points to '<asset> In-Out', to the row that was written from that very transaction; a subject hidden by the window carries no link; a Summary line links to the first gain/loss row of its year (local years monotone, F9) or carries no link, and the lookup never fails; refutation witnesses (vm_compute) for the unrepaired generator on the stored F3/F2 inputs. Whether the file contains these formulas is corresponded, not proved: every HYPERLINK of every generated report is parsed, dereferenced and compared field by field with the input transaction, and the link map is compared with the model.",
+        "note": "F9: with mixed UTC offsets the rows of one local year may be split and the Summary link goes to the first row of the last group (known finding). F3 and F2 are repaired in /repo; their replays run first on every run.",
+        "technique": "Coq proof (map invariant across assets) over a translated layout model + link-dereferencing oracle + differential correspondence", "design_ref": "6 C19"},
     "C20": {
         "text": "Proved on the Coq model of tax_report_jp.py (operations = template cells + insert_rows + _fill_cell; row arithmetic, columns, every fixed formula text, template geometry and the structural flags re-read from the source on each run): one sheet per (asset, local year with a visible transaction) in ascending order with distinct names; each row-bearing transaction of the year on exactly one row 21+k with its cells as final content; all writes and insertions within capacity; one summary sheet per year, line j at row 7+j pointing at that asset-year's own result cells; opening-balance cells reference the closing cells of the greatest earlier year that has a sheet, literal 0 if none; the generator produces the report for every input the engine accepts (no cell is ever handed None) unless both -f and -t are given; the behaviour before the fixes (F5, F14) is refuted by two vm_compute witnesses for the unrepaired flags. Corresponded: every generated tax_report_jp.ods (fresh interpreter per report, en and kl) is compared cell by cell, static cells included, with the extracted model, and judged by an independent oracle that dereferences every cross-sheet formula.",
         "note": "That the file on disk contains these cells is only as strong as the correspondence. ezodf (copy, insert_rows, set_value), float(Decimal) and the yen float formatting are library behaviour rendered by the harness. Legend sheet and styles are not covered. Names-distinct needs years 1..9999 and distinct asset names. Yen values are amount x spot (the writer ignores supplied fiat columns). -f together with -t is excluded (F7, see C16).",
